@@ -15,7 +15,7 @@ LEVEL = "exploration"
 RULE = (
     "case = loop shape (self loop, 2-4 stage cycle, loop with side branch and fan-in - the side branch outside or inside the "
     "loop body -, forward jump over a diamond) x "
-    "requested iterations 0..limit+3 x _max_jumps in {absent,0,1,2,3,10} at workflow or stage level x (FIFO / shuffled "
+    "requested iterations 0..limit+3 x _max_jumps in {absent,0,1,2,3,10,12} at workflow or stage level x (FIFO / shuffled "
     "delivery with withheld acks / one message held back / 2-4 worker threads interleaved at SQL-statement granularity). Oracles: effective jumps <= limit; limit reached => source "
     "TERMINAL and workflow final; per-iteration ledger counts of every stage of the independently computed re-arm set "
     "== 1, stages outside it never re-run; forward jump: bypassed stages SKIPPED and never executed. Non-trivial = >=1 "
@@ -65,7 +65,7 @@ def gen_cases(tier: str, seed: int) -> list[dict]:
     reps = 1 if tier == "quick" else 10
     for _ in range(reps):
         for shape in ("self", "loop", "side", "fanin", "forward", "inbody"):
-            for mj in (None, 0, 1, 2, 3, 10):
+            for mj in (None, 0, 1, 2, 3, 10, 12):
                 limit = DEFAULT_LIMIT if mj is None else mj
                 for times in sorted({0, 1, 2, limit - 1, limit, limit + 1, limit + 3, 10**6} - {-1}):
                     if shape == "forward" and times not in (0, 1):
